@@ -19,6 +19,7 @@ mod pool;
 mod server;
 mod tls;
 mod srvk;
+mod np;
 
 use std::io::{BufRead, Write};
 
@@ -28,6 +29,7 @@ fn gen(stream: &str, seed: u64, n: u64) -> Vec<String> {
         "eb-exhaustive" => return eyeballs::exhaustive(),
         "tls-exhaustive" => return tls::exhaustive(),
         "srvk-exhaustive" => return srvk::exhaustive(),
+        "np-exhaustive" => return np::exhaustive(),
         _ => {}
     }
     let mut rng = rng::Rng::new(seed ^ fxhash(stream));
@@ -46,6 +48,7 @@ fn gen(stream: &str, seed: u64, n: u64) -> Vec<String> {
                 "srv" => server::gen(&mut r, i),
                 "tls" => tls::gen(&mut r, i),
                 "srvk" => srvk::gen(&mut r, i),
+                "np" => np::gen(&mut r, i),
                 "poolt" => { let b = pool::gen_timed(&mut r, i); if b.starts_with('X') { b } else { format!("X{b}") } }
                 _ => panic!("unknown stream {stream}"),
             };
@@ -75,6 +78,7 @@ fn run_line(line: &str) -> String {
         "srv" => server::run(&toks),
         "tls" => tls::run(&toks),
         "srvk" => srvk::run(&toks),
+        "np" => np::run(&toks),
         _ => "unknown-stream".to_string(),
     };
     format!("{input} | {obs}")
@@ -82,7 +86,7 @@ fn run_line(line: &str) -> String {
 
 fn main() {
     // panics inside the code under test are observations, not noise
-    std::panic::set_hook(Box::new(|_| {}));
+    std::panic::set_hook(Box::new(|_| { np::PANICS.fetch_add(1, std::sync::atomic::Ordering::SeqCst); }));
     let args: Vec<String> = std::env::args().collect();
     let out = std::io::stdout();
     let mut out = std::io::BufWriter::new(out.lock());
